@@ -337,6 +337,35 @@ func (e *Env) bin(n EBin) Val {
 		if len(at) != len(bt) {
 			e.fail("comparison of different shapes: %s", n)
 		}
+		if a.T != nil && b.T != nil {
+			// a captured variable is a cell (a pointer): comparing it with a value of the variable's type is a
+			// contract error, and an ill-sorted equality must never reach a solver
+			_, pa := a.T.Underlying().(*types.Pointer)
+			_, pb := b.T.Underlying().(*types.Pointer)
+			other := b.T
+			if pb {
+				other = a.T
+			}
+			if pa != pb {
+				ok := false
+				if bt, isB := other.Underlying().(*types.Basic); isB && (bt.Kind() == types.UntypedNil || bt.Kind() == types.UnsafePointer || bt.Kind() == types.Uintptr) {
+					ok = true
+				}
+				if _, isI := other.Underlying().(*types.Interface); isI {
+					ok = true
+				}
+				if !ok {
+					e.fail("comparison of %s with %s in %s (a captured variable needs a dereference: *name)", a.T, b.T, n)
+				}
+			}
+			if a.K == KScalar && b.K == KScalar && !isUntyped(a.T) && !isUntyped(b.T) {
+				sa, oka := x.sorts.scalarSort(a.T)
+				sb, okb := x.sorts.scalarSort(b.T)
+				if oka && okb && sa != sb {
+					e.fail("comparison of sorts %s and %s in %s", sa, sb, n)
+				}
+			}
+		}
 		if a.K == KSlice && (b.Ref == "0" || a.Ref == "0") && (isNilSlice(b) || isNilSlice(a)) {
 			r := eq(a.Ref, b.Ref)
 			if n.Op == "!=" {
@@ -612,7 +641,8 @@ func (e *Env) selector(n ESel) Val {
 		case "tag":
 			return Val{T: types.Typ[types.Int], K: KScalar, S: base.Tag}
 		case "pay":
-			return Val{T: types.Typ[types.Int], K: KScalar, S: base.Pay}
+			// the payload of an interface value is a reference or a box: typed uintptr so that it may be compared with pointers
+			return Val{T: types.Typ[types.Uintptr], K: KScalar, S: base.Pay}
 		}
 	case KStruct, KTuple:
 		if st, ok := base.T.Underlying().(*types.Struct); ok {
